@@ -43,7 +43,12 @@ def _get_slices(tokens, **keywords):
             else lingpy.sequence.sound_classes.tokens2morphemes(tokens, **kw)
     out = []
     current = 0
+    separators = kw['sep'] + kw['word_sep'] + kw['word_seps'] + kw['seps']
     for morpheme in morphemes:
+        if kw['split_on_tones']:
+            # written separators are not part of the morphemes
+            while current < len(tokens) and tokens[current] in separators:
+                current += 1
         out += [(current, current+len(morpheme))]
         current = current+len(morpheme)+(1 if not kw['split_on_tones'] else 0)
     return out
